@@ -15,7 +15,27 @@ func TestRAC_C11(t *testing.T) {
 		maxLeaves, maxBlocks = 8, 3
 	}
 	n := 0
-	enumHistories(maxLeaves, maxBlocks, func(h racHistory) {
+	enumHistories(maxLeaves, maxBlocks, func(h racHistory) { runC11(res, h, &n) })
+	// the same contract with adversarial leaf values (values equal to hashes of internal nodes / roots,
+	// values sharing 12-byte prefixes): the statement only makes the added leaves distinct and non-empty
+	na := 0
+	for _, a := range advAssignments() {
+		racLeaf = a.leaf
+		enumHistories(5, 3, func(h racHistory) {
+			res.tagged("/leaf-values="+a.name, func(tmp *racResult) { runC11(tmp, h, &na) })
+		})
+	}
+	racLeaf = specLeaf
+	res.Exhaustive = true
+	res.Rule = fmt.Sprintf("every history with <= %d leaves / <= %d blocks (and every history with <= 5 leaves / <= 3 blocks under each of the 4 adversarial value assignments of TestRAC_ADV); the update data of the last block of each history is compared field by field with UpdateDataSpec (written from the C11 statement over the spec forest). distinct = distinct (pre-state, block) pairs", maxLeaves, maxBlocks)
+	res.Scope = fmt.Sprintf("blocks=%d (+%d with adversarial values)", n, na)
+	res.write(t)
+}
+
+func runC11(res *racResult, h racHistory, np *int) {
+	{
+		n := *np
+		defer func() { *np = n }()
 		w := newWorld(nil)
 		for k := 0; k < len(h)-1; k++ {
 			if !w.applyAll(res, h, k, false) {
@@ -57,9 +77,5 @@ func TestRAC_C11(t *testing.T) {
 		if n%613 == 1 {
 			res.sample(map[string]interface{}{"history": h.String(), "ToDestroy": want.ToDestroy, "NewDelPos": want.NewDelPos, "NewAddPos": want.NewAddPos})
 		}
-	})
-	res.Exhaustive = true
-	res.Rule = fmt.Sprintf("every history with <= %d leaves / <= %d blocks; the update data of the last block of each history is compared field by field with UpdateDataSpec (written from the C11 statement over the spec forest). distinct = distinct (pre-state, block) pairs", maxLeaves, maxBlocks)
-	res.Scope = fmt.Sprintf("blocks=%d", n)
-	res.write(t)
+	}
 }
